@@ -179,6 +179,49 @@ theorem linear_lookup_iff (c : Cfg) (bases : Bases) (sec : Bytes) (a : Nat) (fs 
       · intro _ f hm; have := hf f hm; simpa using this
       · intro _; rfl
 
+/-! ## (5) entries round trip -/
+
+/-- **Iterating an encoded section yields its entries, with their encoded fields.**
+`encodeFrameSection` (Spec/Frame.lean) lays out abstract CIEs — versions 1/3/4, 32/64-bit lengths,
+empty augmentation or `z` followed by any sequence of `L`, `P`, `R`, `S` with their arguments
+(any valid pointer encodings, the personality pointer with any base set), address/segment size
+bytes in `.debug_frame` version 4, trailing augmentation padding, any instruction bytes — and
+FDEs (CIE pointer relative in `.eh_frame`, absolute in `.debug_frame`; address fields in the CIE's
+`R` encoding or as plain addresses; augmentation data with the LSDA pointer in the `L` encoding),
+optionally followed by a zero-length terminator. For every such list that satisfies the layout
+side conditions `EntriesWF` the iterator yields exactly `expectEntries`: each CIE with all its
+fields, each FDE with its offset, length, format and the CIE offset its pointer designates — and
+then ends with `Ok(None)`.
+
+*Partial*: the Spec encoder covers `data_alignment_factor` only in one-byte SLEB128
+(`-64 ≤ daf < 64`) and pointer operands in every format but sleb128 (no signed-LEB128
+round-trip theorem is available); the 64-bit zero terminator and `.debug_frame` zero-length words
+*between* entries are not part of the encoder (they are exercised by the differential run).
+Full statement: the same with those restrictions lifted. -/
+theorem entries_roundtrip_partial (c : Cfg) (bases : Bases) (es : List AEntry) (term : Bool)
+    (hwf : EntriesWF c bases 0 es) :
+    entriesOf c bases (encodeFrameSection c.eh c.e es term) = (expectEntries c bases 0 es, .ok ()) := by
+  unfold entriesOf encodeFrameSection
+  apply entries_encoded c bases term es 0 _ _ hwf
+  have := encodeEntries_length c es 0
+  simp only [List.length_append]
+  omega
+
+/-- **Each FDE is bound to the CIE its pointer designates, and parses to its encoded fields.**
+In a well-formed encoded section, an FDE laid out at `off` that names the CIE entry `ci` of the
+section (at its layout offset `totalSize es1`) parses — through `cie_from_offset` at the offset the
+pointer resolves to — to `fd.expect`: that very CIE record, the initial location and range decoded
+in the CIE's `R` encoding against the given bases (pc-relative to the field's own offset), the
+LSDA pointer (function-relative to the initial location), and the instruction bytes. -/
+theorem fde_bound_roundtrip_partial (c : Cfg) (bases : Bases) (es1 es2 : List AEntry) (ci : ACie) (term : Bool)
+    (fd : AFde) (off : Nat)
+    (hwf : EntriesWF c bases 0 (es1 ++ .cie ci :: es2))
+    (hfd : fd.WF c bases (ci.expect c bases (totalSize c.eh c.e es1)) off) :
+    parseRest c bases (encodeFrameSection c.eh c.e (es1 ++ .cie ci :: es2) term)
+        (fd.expectPartial c (ci.expect c bases (totalSize c.eh c.e es1)) off) =
+      .ok (fd.expect c bases (ci.expect c bases (totalSize c.eh c.e es1)) off) :=
+  parseRest_encoded c bases _ _ fd off (cieFromOffset_section c bases es1 es2 ci term hwf) hfd
+
 /-! ## (6) the three lookup paths agree -/
 
 /-- **Lookup through the `.eh_frame_hdr` table = exhaustive scan.** If the table indexes the
@@ -320,5 +363,44 @@ example : isValidEncoding 0x9b = true ∧ neededBase 0x9b ⟨{ sect := some 0x40
     parseEncodedPointer .debug .little 0x9b ⟨{ sect := some 0x4000 }, none, 8⟩ ⟨0x10, [0xf0, 0xff, 0xff, 0xff, 7]⟩ =
       .ok (.indirect 0x4000, ⟨0x14, [7]⟩) := by
   decide +kernel
+
+/-- an abstract `.eh_frame`: CIE `zPLR` (personality pcrel|sdata4, LSDA funcrel|udata2 indirect,
+FDE addresses pcrel|sdata4) and one FDE of it; `EntriesWF` holds and the iterator returns both -/
+def exCie : ACie :=
+  { format := .dwarf32, version := 1,
+    args := [.pers 0x1b 0x100, .lsda 0xc2, .fdeEnc 0x1b], augPad := [0xaa],
+    asz := 8, caf := 1, daf := -8, rar := 16, instr := [0x0c, 0x07, 0x08, 0] }
+def exCfgEh : Cfg := { eh := true, e := .little, asz := 8, m := .debug }
+def exBases : Bases := { ehFrame := { sect := some 0x2000, text := some 0x1000 } }
+def exFde : AFde :=
+  { format := .dwarf32, initOp := sext 4 0xffff_f000, range := 0x40, lsdaOp := 0x12, augPad := [], instr := [0, 0] }
+
+
+
+def exSecEh : Bytes := encodeFrameSection true .little [.cie exCie, .fde (exCie.expect exCfgEh exBases 0) exFde] true
+
+example : exSecEh.length = 55 ∧ (entriesOf exCfgEh exBases exSecEh).1.length = 2 ∧
+    (entriesOf exCfgEh exBases exSecEh).2 = .ok () ∧
+    (parseAll exCfgEh exBases exSecEh (entriesOf exCfgEh exBases exSecEh).1).map
+      (fun fs => fs.map (fun f => (f.offset, f.cie.offset, f.initial, f.range))) = .ok [(30, 0, 0x1026, 0x40)] ∧
+    (parseAll exCfgEh exBases exSecEh (entriesOf exCfgEh exBases exSecEh).1).map
+      (fun fs => fs.map (fun f => (f.lsda.map (·.pointer),
+        f.cie.aug.map (fun a => a.personality.map (fun p => p.2.pointer))))) = .ok [(some 0x1038, some (some 0x2113))] := by
+  decide +kernel
+
+/-- the side conditions of `entries_roundtrip_partial` / `fde_bound_roundtrip_partial` hold for it -/
+example : EntriesWF exCfgEh exBases 0 [.cie exCie, .fde (exCie.expect exCfgEh exBases 0) exFde] := by
+  refine ⟨⟨by decide, by decide, by decide, by decide, by decide, by decide, ?_, by decide +kernel, by decide +kernel⟩,
+    (by show idSize exCfgEh.eh exCie.format + (ACie.fields exCfgEh.eh exCfgEh.e exCie).length < 0xffff_fff0; decide +kernel),
+    ⟨(by show idSize exCfgEh.eh exFde.format + (AFde.fields exCfgEh.e (ACie.expect exCfgEh exBases exCie 0) exFde).length < 0xffff_fff0; decide +kernel), by decide +kernel, by decide +kernel, by decide, ?_, ?_, by decide +kernel⟩, trivial⟩
+  · intro arg h
+    simp only [exCie, List.mem_cons, List.not_mem_nil, or_false] at h
+    rcases h with h | h | h <;> subst h <;> unfold ArgWF <;> decide +kernel
+  · show PtrOk _ _ _ _ _ ∧ _
+    unfold PtrOk
+    decide +kernel
+  · show PtrOk _ _ _ _ _
+    unfold PtrOk
+    decide +kernel
 
 end Gimli.Props.C05
